@@ -6,8 +6,11 @@ export GOFLAGS=-mod=mod GOPROXY=off GOSUMDB=off GOTOOLCHAIN=local
 mkdir -p build evidence coq/Gen
 (cd tools/goconsts && go build -o ../../build/goconsts .)
 ./build/goconsts -repo /repo -out coq/Gen -fp build
+(cd tools/gotrans && go build -o ../../build/gotrans .)
+./build/gotrans -repo /repo -out coq/Gen -sem coq/Lib/GoSem.v || echo "setup: gotrans left some functions untranslated (the checks will report them)"
 tools/mkcoqproject.sh
 (cd coq && coq_makefile -f _CoqProject -o Makefile && timeout 3000 make -j"$(nproc)" -k) || echo "setup: some Coq files failed to build (the checks will report them)"
+tools/gotrans/semtest.sh || echo "setup: WARNING gotrans differential self-test failed (translator / Lib/GoSem.v disagree with the Go compiler)"
 cp /repo/go.sum harness/go.sum
 (cd harness && go build -tags verif -o ../build/harness .)
 echo "setup done"
